@@ -19,6 +19,10 @@ TRUSTED = ['pyparsing matching rules as interpreted by Parse/Peg.v (And/Or/Match
            'look-around, DEFAULT_ARG scanner) - tied by correspondence', 'harness/translate_grammar.py (fail-closed walker)']
 
 WITNESSES = [
+    ('C01-typedef-qualifiers-dropped', 'typedef Foo<const A&> B;',
+     lambda d: d == [['typedef', ['tn', [], 'Foo', [['tn', [], 'A', []]]], 'B']],
+     'the parse tree of a typedef holds only the Typename of its target: const / * / @ / & on the target or on its template '
+     'arguments are not mirrored'),
     ('C01-operator-eq-as-variable', 'class A { bool operator==(const A& o) const; };',
      lambda d: d[0][10] == [] and [v[2] for v in d[0][9]] == ['operator'],
      'operator== is parsed as a property named `operator` with default text "=(const A& o) const": Variable and Operator '
